@@ -303,6 +303,9 @@ def run(chk, F):
     rule_r1(chk, F)
     rule_r2(chk, F)
     rule_r3(chk, F)
+    # the trap's return address (where its position is recorded) must lie inside the function (engine of C10.R5)
+    from rules import c10
+    c10.rule_r5(chk, F, rid="C14.R4")
     chk.assumptions += [
         "decides provenance of positions, agreement of trap tables and flush-before-_exit; correctness of the "
         "recorded line after inlining/optimisation and frame-walk correctness are not decided",
